@@ -27,7 +27,7 @@ Definition ticks_absent_b (s : amm) : bool :=
   match a_positions s with [] => match a_ticks s with [] => true | _ => false end | _ => true end.
 
 Definition c04_check (c : amm_case) : list Z :=
-  flag 0 (corr c) ++
+  flag 0 (corr c) ++ (if undecided c then [150] else []) ++
   flag 1 (liq_inv_b (c_post c)) ++      (* clauses (1) (2) (4) (5) on the implementation's state *)
   flag 2 (price_in_tick_b (c_post c)) ++
   flag 3 (reset_b (c_post c) && ticks_absent_b (c_post c)) ++
